@@ -15,6 +15,7 @@ import (
 	"testing/synctest"
 	"time"
 
+	ipfslog "berty.tech/go-ipfs-log"
 	"berty.tech/go-ipfs-log/entry"
 	"berty.tech/go-ipfs-log/iface"
 	"github.com/ipfs/go-cid"
@@ -25,6 +26,90 @@ var VTT *testing.T
 
 func init() {
 	Props["C11T"] = RunC11T
+	Props["C09T"] = RunC09T
+}
+
+// RunC09T: two loads overlap in (virtual) time on one store - one of them is given up by its caller
+// (deadline or fetch timeout) while blocks are still on their way, the other one has all the time it
+// needs and must rebuild exactly the log it was asked for, whatever the first one did.
+func RunC09T(r *Run) {
+	if VTT == nil {
+		r.Harness("C09T needs the virtual-time worker binary")
+	}
+	w := BuildWorld(r, c09Profile())
+	for s := 0; s < 4; s++ {
+		r.T.Mark()
+		if s > 0 && r.Choose("another-scenario", 3) == 0 {
+			break
+		}
+		nb, na := w.pickSource("src"), w.pickSource("src-aborted")
+		if nb == nil || na == nil {
+			break
+		}
+		inB, inA := w.prepareInputs(nb), w.prepareInputs(na)
+		st := w.St
+		st.GetFaults = map[string]GetFault{}
+		st.Delay = map[string]time.Duration{}
+		var total time.Duration
+		for _, h := range w.M.Order {
+			d := time.Duration(1+r.Choose("block-ms", 9)) * time.Millisecond
+			st.Delay[h] = d
+			total += d
+		}
+		conc := len(w.M.Order) + 4
+		spB := loadSpec{loader: w.pickLoader(inB), conc: conc}
+		spA := loadSpec{loader: w.pickLoader(inA), conc: conc}
+		// the first caller gives up somewhere inside the time its load would need
+		giveUp := time.Duration(1+r.Choose("give-up-ms", int(total/time.Millisecond)+1)) * time.Millisecond
+		byFetchTimeout := r.Choose("give-up-how", 2) == 0
+		if byFetchTimeout {
+			spA.timeout = giveUp
+		}
+		startB := time.Duration(r.Choose("second-starts-ms", int(giveUp/time.Millisecond)+1)) * time.Millisecond
+		oB, oA := w.logOpts(), w.logOpts()
+		var lB *ipfslog.IPFSLog
+		var errB, errA error
+		var bubblePanic interface{}
+		st.VT = true
+		func() {
+			defer func() { bubblePanic = recover() }()
+			synctest.Test(VTT, func(t *testing.T) {
+				done := make(chan struct{})
+				go func() {
+					defer close(done)
+					ctx := context.Background()
+					if !byFetchTimeout {
+						var cancel context.CancelFunc
+						ctx, cancel = context.WithTimeout(ctx, giveUp)
+						defer cancel()
+					}
+					_, errA = w.invokeLoader(ctx, inA, spA, Writers()[3], oA)
+				}()
+				time.Sleep(startB)
+				lB, errB = w.invokeLoader(context.Background(), inB, spB, Writers()[4], oB)
+				<-done
+			})
+		}()
+		st.VT = false
+		st.Reqs = nil
+		r.Logf("vt-overlap: load of n%d via %s given up after %v (fetch timeout: %v, err=%v); load of n%d via %s started at %v err=%v",
+			na.Idx, loaderNames[spA.loader], giveUp, byFetchTimeout, errA != nil, nb.Idx, loaderNames[spB.loader], startB, errB != nil)
+		r.Fault("load-given-up")
+		r.Probe("loads-overlapping-in-time")
+		r.Nontrivial()
+		if bubblePanic != nil {
+			Tainted.Store(true)
+			r.Violate("fetch-termination", "overlapping loads never returned: %v", bubblePanic)
+		}
+		if errB != nil || lB == nil {
+			r.Violate("C09:load-error", "%s of a stored log failed while another load on the same store was given up: %v", loaderNames[spB.loader], errB)
+		}
+		_, strict := w.M.Linear(inB.set, w.ByHash)
+		if d := w.sameObs(w.observe(nb.Log), w.observe(lB), strict); d != "" {
+			r.Violate("C09:equal", "log rebuilt by %s while another load on the same store was given up differs from the original: %s", loaderNames[spB.loader], d)
+		}
+	}
+	w.St.Delay = map[string]time.Duration{}
 }
 
 func RunC11T(r *Run) {
